@@ -5,13 +5,13 @@
    instances x file order) that `vdrive grpcwire` renders and runs through the real code. *)
 EXTENDS GrpcWire, Json, SequencesExt, IOUtils
 
-CONSTANTS MaxInst, MaxFile, Kinds, Full, Cfgs
+CONSTANTS MaxInst, MaxFile, Kinds, Full, Cfgs, CatSel
 
 (******************************* catalogue *********************************)
 F(f, d, t) == [f |-> f, pre |-> IF f \in {"user_id", "item_id"} THEN "" ELSE d \o "." \o f, tok |-> t, dv |-> FALSE]
-M(k, d, t) == [k |-> k, pre |-> d \o "." \o k, tok |-> t]
+M(k, d, t) == [k |-> k, pre |-> d \o "." \o k, tok |-> t, vf |-> "ascii"]
 Step(d, call, bad, tag, fs, ks, t) ==
-    [def |-> d, call |-> Svc \o call, bad |-> bad, tag |-> tag, sleep |-> 0,
+    [def |-> d, call |-> Svc \o call, bad |-> bad, tag |-> tag, sleep |-> 0, ans |-> "OK",
      fields |-> {F(f, d, t) : f \in fs}, md |-> {M(k, d, t) : k \in ks}]
 
 J1 == [name |-> "e1", steps |-> <<Step("e1", "Hello", "none", "e1", {"name"}, {"a"}, "5001")>>]
@@ -34,7 +34,23 @@ S4 == [name |-> "s4", steps |-> <<Slp(Step("c4", "Hello", "none", "s4.c4", {"nam
                                   [TailStep("s4") EXCEPT !.tag = "s4.ct2"]>>]
 \* a template that fails DURING execution (after writing part of its output): nothing is sent, one failed sample
 S5 == [name |-> "s5", steps |-> <<Step("c5", "Hello", "tmplfail", "s5.c5", {"name"}, {"b"}, ""), TailStep("s5")>>]
-Cat(k) == IF k = "json" THEN {J1, J2, J3, J4, J5, J6} ELSE {S1, S2, S3, S4, S5}
+\* metadata keys in other cases, several entries under ONE wire key, a binary value, metadata that cannot be attached
+Utf8(st, ks) == [st EXCEPT !.md = {IF m.k \in ks THEN [m EXCEPT !.vf = "utf8"] ELSE m : m \in @}]
+J7 == [name |-> "e7", steps |-> <<Step("e7", "Hello", "none", "e7", {"name"}, {"auth", "AUTH", "b"}, "5007")>>]
+J8 == [name |-> "e8", steps |-> <<Utf8(Step("e8", "Hello", "none", "e8", {"name"}, {"X-Bin", "A"}, "5008"), {"X-Bin"})>>]
+J9 == [name |-> "e9", steps |-> <<Utf8(Step("e9", "Hello", "none", "e9", {"name"}, {"a", "b"}, "5009"), {"b"})>>]      \* non-ASCII under a non-bin key
+J10 == [name |-> "e10", steps |-> <<Step("e10", "Hello", "none", "e10", {"name"}, {"a b", "auth"}, "5010")>>]             \* illegal key
+S6 == [name |-> "s6", steps |-> <<Step("c6", "Hello", "none", "s6.c6", {"name"}, {"auth", "Auth", "AUTH"}, ""), TailStep("s6")>>]
+S7 == [name |-> "s7", steps |-> <<Utf8(Step("c7", "Hello", "none", "s7.c7", {"name"}, {"x-bin", "B"}, ""), {"x-bin"}), TailStep("s7")>>]
+S8 == [name |-> "s8", steps |-> <<Step("c8", "Hello", "none", "s8.c8", {"name"}, {"nonascii-key"}, ""), TailStep("s8")>>]
+\* the target answers with an error status
+Ans(st, a) == [st EXCEPT !.ans = a]
+J11 == [name |-> "e11", steps |-> <<Ans(Step("e11", "Hello", "none", "e11", {"name"}, {"a"}, "5011"), "UNAVAILABLE")>>]
+S9 == [name |-> "s9", steps |-> <<Ans(Step("c9", "Hello", "none", "s9.c9", {"name"}, {"b"}, ""), "UNAVAILABLE"), TailStep("s9")>>]
+MainCat == [json |-> {J1, J2, J3, J4, J5, J6}, scn |-> {S1, S2, S3, S4, S5}]
+\* (the second catalogue: metadata forms and error answers; J8 / J10 / S7 are covered by the generated case space)
+MdCat   == [json |-> {J7, J9, J11}, scn |-> {S6, S8, S9}]
+Cat(k) == CatSel[k]
 Files(k) == UNION {[1..n -> Cat(k)] : n \in 1..MaxFile}
 
 Init == \E k \in Kinds : \E f \in Files(k) : \E n \in 1..MaxInst : \E c \in Cfgs : InitCfg(k, f, n, c)
@@ -49,8 +65,21 @@ Both     == {"json", "scn"}
 
 (******************************* generator *********************************)
 FieldSubsets(m) == {SelectSeq(InputType(m), LAMBDA x : x \in S) : S \in SUBSET Rng(InputType(m))}
-MdSeq(S) == SelectSeq(<<"a", "b", "auth", "payload">>, LAMBDA k : k \in S)
-Abs(m, fs, mds, bad, st, nu) == [call |-> m, fields |-> fs, md |-> MdSeq(mds), bad |-> bad, style |-> st, num |-> nu, dflt |-> {}]
+\* written metadata: a sequence of [k (the key AS WRITTEN), vf (ascii | utf8 value)]
+AllKeys == <<"a", "A", "b", "B", "auth", "Auth", "AUTH", "x-bin", "X-Bin", "payload", "a b", "nonascii-key">>
+MdSeqU(S, U) == LET sel == SelectSeq(AllKeys, LAMBDA k : k \in S)
+                IN [i \in 1..Len(sel) |-> [k |-> sel[i], vf |-> IF sel[i] \in U THEN "utf8" ELSE "ascii"]]
+MdSeq(S) == MdSeqU(S, {})
+Abs(m, fs, mds, bad, st, nu) == [call |-> m, fields |-> fs, md |-> MdSeq(mds), bad |-> bad, style |-> st, num |-> nu, dflt |-> {}, ans |-> "OK"]
+\* what the SPECIFICATION says about an entry: declared bad, or metadata that cannot be attached (GrpcWire!Bad)
+AbsBad(a) == IF a.bad # "none" THEN a.bad ELSE IF \E i \in DOMAIN a.md : ~MdLegal(a.md[i]) THEN "badmd" ELSE "none"
+\* metadata key forms: other cases, several entries under one wire key, binary values, entries that cannot be attached
+MdForm(m, S, U) == [Abs(m, InputType(m), {}, "none", "rot", "rot") EXCEPT !.md = MdSeqU(S, U)]
+MdForms == {MdForm("Hello", {"A"}, {}), MdForm("Hello", {"Auth", "b"}, {}), MdForm("Hello", {"auth", "AUTH"}, {}),
+            MdForm("Stats", {"a", "A", "B"}, {}), MdForm("Order", {"auth", "Auth", "AUTH"}, {}),
+            MdForm("Hello", {"x-bin"}, {"x-bin"}), MdForm("Auth", {"X-Bin", "a"}, {"X-Bin"}), MdForm("Hello", {"x-bin", "X-Bin"}, {"X-Bin"}),
+            MdForm("Hello", {"a"}, {"a"}), MdForm("Hello", {"a b"}, {}), MdForm("List", {"nonascii-key", "b"}, {}),
+            MdForm("Hello", {"auth", "AUTH", "b"}, {"b"})}
 Styles == IF Full THEN {"proto", "camel"} ELSE {"rot"}
 Nums   == IF Full THEN {"number", "string"} ELSE {"rot"}
 GoodAbs == {Abs(m, fs, mds, "none", st, nu) : m \in Methods, fs \in UNION {FieldSubsets(mm) : mm \in Methods},
@@ -64,7 +93,12 @@ Defaults == {[Abs(m, InputType(m), mds, "none", "rot", "rot") EXCEPT !.dflt = D]
 DefaultSet == {a \in Defaults : a.dflt # {} /\ a.dflt \subseteq {InputType(a.call)[i].f : i \in DOMAIN InputType(a.call)}}
 \* a payload naming a field the method does not have (the other ill-typed entries rotate through three mechanisms)
 UnknownField == {Abs(m, InputType(m), {}, "illtyped", "unknownfield", "rot") : m \in Methods}
-GoodSet == {a \in GoodAbs : a.fields \in FieldSubsets(a.call)} \cup NameClash \cup DefaultSet
+\* the target answers the entry with an error status: every status (the recording target finds the entry by the name in its
+\* string fields / metadata values, so these entries carry one)
+Answered == {[Abs("Hello", InputType("Hello"), mds, "none", "rot", "rot") EXCEPT !.ans = a] : a \in Statuses \ {"OK"}, mds \in {{"a"}}}
+            \cup {[Abs("Order", InputType("Order"), {"auth", "b"}, "none", "rot", "rot") EXCEPT !.ans = a] : a \in {"UNAVAILABLE", "RESOURCE_EXHAUSTED", "ABORTED"}}
+            \cup {[Abs("Stats", <<>>, {"a"}, "none", "rot", "rot") EXCEPT !.ans = "UNAVAILABLE"]}
+GoodSet == {a \in GoodAbs : a.fields \in FieldSubsets(a.call)} \cup NameClash \cup DefaultSet \cup {a \in MdForms : AbsBad(a) = "none"} \cup Answered
 BadSet  == {Abs("Hello", <<>>, mds, "unknown", "rot", "rot") : mds \in {{}, {"a"}, {"a", "b", "auth"}}}
            \cup {a \in {Abs(m, fs, mds, "illtyped", "rot", "rot") : m \in Methods,
                         fs \in UNION {FieldSubsets(mm) : mm \in Methods}, mds \in {{}, {"b"}}} :
@@ -75,7 +109,7 @@ BadSet  == {Abs("Hello", <<>>, mds, "unknown", "rot", "rot") : mds \in {{}, {"a"
 TmplFail == {Abs("Hello", <<FStr("name")>>, {"a"}, "tmplfail", v, "rot") : v \in {"payload", "metadata"}}
 Undecodable == {Abs("Hello", <<>>, {}, "undecodable", g, "rot") : g \in {"truncated", "notjson", "array", "payloadstring"}}
 GoodSeq == SetToSeq(GoodSet)
-BadSeq  == SetToSeq(BadSet \cup Undecodable \cup TmplFail \cup UnknownField)
+BadSeq  == SetToSeq(BadSet \cup Undecodable \cup TmplFail \cup UnknownField \cup {a \in MdForms : AbsBad(a) # "none"})
 \* bad entries interleaved with good ones: one bad entry after every K good ones, the rest of the good at the end
 K == Len(GoodSeq) \div Len(BadSeq)
 RECURSIVE Weave(_)
@@ -89,19 +123,19 @@ Rot(a, i) == IF a.bad \in {"undecodable", "tmplfail"} \/ a.style = "unknownfield
 WithDv(a) == [a EXCEPT !.fields = [j \in DOMAIN @ |-> @[j] @@ [dv |-> @[j].f \in a.dflt]]]
 Entry(i) == [id |-> i] @@ Rot(WithDv(Woven[i]), i)
 \* the expected observable of every entry, computed here: is the call received, how many ok / failed samples
-Expect(a) == [received |-> a.bad = "none", ok_samples |-> IF a.bad = "none" THEN 1 ELSE 0,
-              failed_samples |-> IF a.bad = "none" THEN 0 ELSE 1]
+Expect(a) == [received |-> AbsBad(a) = "none", ok_samples |-> IF AbsBad(a) = "none" /\ a.ans = "OK" THEN 1 ELSE 0,
+              failed_samples |-> IF AbsBad(a) = "none" /\ a.ans = "OK" THEN 0 ELSE 1]
 EntriesOut == [i \in 1..N |-> Entry(i) @@ [expect |-> Expect(Woven[i])]]
 \* every scenario is <entry, tail>; the tail call carries a templated payload field and all three
 \* templated metadata keys, so every scenario shot of every instance renders the SAME shared step
-IsTail(a) == a.call = "Hello" /\ Len(a.fields) = 1 /\ a.md = <<"a", "b", "auth">> /\ a.bad = "none"
+IsTail(a) == a.call = "Hello" /\ Len(a.fields) = 1 /\ a.md = MdSeq({"a", "b", "auth"}) /\ a.bad = "none"
 TailId == CHOOSE i \in 1..N : IsTail(Woven[i]) /\ \A j \in 1..(i - 1) : ~IsTail(Woven[j])
 \* VERIF_SEED rotates the file: a different neighbourhood for every entry, another first/last entry
 Shift == (atoi(IOEnv.VERIF_SEED) * 37) % N
 Fwd == [i \in 1..N |-> ((i - 1 + Shift) % N) + 1]
 Rev == [i \in 1..N |-> ((N - i + Shift) % N) + 1]
-BadIdx == SelectSeq(Fwd, LAMBDA i : Woven[i].bad # "none")
-BadFirst == BadIdx \o SelectSeq(Fwd, LAMBDA i : Woven[i].bad = "none")
+BadIdx == SelectSeq(Fwd, LAMBDA i : AbsBad(Woven[i]) # "none")
+BadFirst == BadIdx \o SelectSeq(Fwd, LAMBDA i : AbsBad(Woven[i]) = "none")
 \* undecodable lines exist in files only (scenario definitions have no lines)
 Scn(o) == SelectSeq(o, LAMBDA i : Woven[i].bad # "undecodable")
 \* templates exist in scenarios only
@@ -117,7 +151,7 @@ Run(k, s, c, n, o, x, r) == [kind |-> k, shared |-> s, clients |-> c, inst |-> n
                              timeout |-> 0, sleeps |-> <<>>]
 \* "within the configured timeout" is per call: timeout T, think time 0.6 T + 0.6 T between three fast calls
 SlowT == 1000
-SlowRun == [Run("scn", FALSE, 1, 4, SubSeq(Scn(SelectSeq(Fwd, LAMBDA i : Woven[i].bad = "none")), 1, 4), 0, FALSE)
+SlowRun == [Run("scn", FALSE, 1, 4, SubSeq(Scn(SelectSeq(Fwd, LAMBDA i : AbsBad(Woven[i]) = "none")), 1, 4), 0, FALSE)
             EXCEPT !.timeout = SlowT, !.sleeps = <<(SlowT * 6) \div 10, (SlowT * 6) \div 10>>]
 Runs == <<Run("json", FALSE, 1, 1, Jsn(Fwd), 0, FALSE), Run("json", TRUE, 1, 2, Jsn(Rev), 0, TRUE), Run("json", FALSE, 1, 3, Jsn(BadFirst), 0, TRUE),
           Run("json", TRUE, 3, 1, Jsn(BadFirst), 0, TRUE), Run("json", FALSE, 1, 2, Jsn(Fwd), 0, FALSE), Run("json", TRUE, 2, 3, Jsn(Rev), 0, FALSE),
